@@ -331,6 +331,11 @@ func (v *Verifier) rangeOfComp(name string) (lo, hi string, ok bool) {
 		switch v.lastLeaf.Underlying().(type) {
 		case *types.Pointer, *types.Map:
 			return "ref", "", true
+		case *types.Interface:
+			if !isErrorType(v.lastLeaf) && !isEmptyInterface(v.lastLeaf) {
+				return "ref", "", true
+			}
+			return "", "", false
 		case *types.Slice:
 			return "slice", "", true
 		}
